@@ -6,7 +6,8 @@
     for the EVM run is not executable (never produced by the harness; refused by the checker). *)
 From Coq Require Import List Bool Arith ZArith.
 Import ListNotations.
-Require Import Nib.C05.Model Nib.C05.Spec Nib.C05.Facts Nib.C05.Proofs Nib.C05.ProofsBundle Nib.C05.ProofsNonvacuous.
+Require Import Nib.C05.Model Nib.C05.ModelX Nib.C05.Spec Nib.C05.Facts Nib.C05.Proofs Nib.C05.ProofsBundle Nib.C05.ProofsX
+  Nib.C05.ProofsNonvacuous Nib.C05.ProofsXNonvacuous.
 Open Scope Z_scope.
 
 (** Fee arithmetic, all prices and limits: what the signer ends up paying (prepay - refund, both
@@ -114,6 +115,82 @@ Theorem C05_repaired_sync_is_deliver :
   forall e b t, snd (deliver e b t) <> Stuck -> deliver_cur [] e b t = deliver e b t.
 Proof. exact deliver_cur_repaired. Qed.
 Print Assumptions C05_repaired_sync_is_deliver.
+
+(* ------------------------------------------------------------------------------------------------
+   The EVM phase on its two ledgers (ModelX.v): the script of a tx says what the contract code DID — value transfers
+   (also to module accounts the bank blocks), self-destructs, call frames that are kept or reverted, calls of the Nibiru
+   precompiles (intermediate flush CommitCacheCtx, which FAILS HALF-WAY when SetAccBalance has minted and the bank then
+   refuses a blocked recipient; bank sends mirrored into the StateDB).  [deliver_x true]: the PrecompileCalled journal
+   entry precedes the flush (the code as it stands, fact k_journal_before_flush). *)
+
+(** The whole property [P] for EVERY script (any nesting, any number of failing flushes, reverted frames, reverted
+    or failing txs), any fee parameters and any funded state: the measurement the model produces — with the computed
+    net effects as the tx's script — satisfies [P]; supply = sum of the balances' deltas and never grows (no side
+    condition); balances stay >= 0.  The side condition (as [tx_wf] for the flat model): a tx that succeeds has no net
+    effect on the fee collector. *)
+Theorem C05_x_deliver_satisfies_P :
+  forall c e b t xs keep, env_wf e -> nonneg (bal b) -> 0 <= t_gas_used t <= t_gas t ->
+  snd (fst (xres c e b t xs keep)) <> Stuck ->
+  nonneg (bal (fst (fst (xres c e b t xs keep)))) /\
+  dsupply (xmeas c e b t xs keep) = sumU (delta (xmeas c e b t xs keep)) (e_universe e) /\
+  dsupply (xmeas c e b t xs keep) <= 0 /\
+  ((snd (fst (xres c e b t xs keep)) = Ok ->
+    untouched (e_collector e) (set_evm t (EvmOk (snd (xres c e b t xs keep)))) = true) -> P (xmeas c e b t xs keep)).
+Proof. exact deliver_x_facts. Qed.
+Print Assumptions C05_x_deliver_satisfies_P.
+
+(** No history of such txs increases the supply. *)
+Theorem C05_x_supply_never_increases :
+  forall c e, env_wf e -> forall ts b, nonneg (bal b) -> Forall xtx_gas_ok ts ->
+  ~ In Stuck (snd (run_x true c e b ts)) -> supply (fst (run_x true c e b ts)) <= supply b.
+Proof. exact run_x_supply_le. Qed.
+Print Assumptions C05_x_supply_never_increases.
+
+(** A tx that reverts as a whole or fails in the msg server (e.g. the final commit owes a blocked account its credit)
+    changes nothing but the signer's payment to the collector — whatever ran inside, failing flushes included. *)
+Theorem C05_x_failed_tx_changes_only_fee :
+  forall c e, env_wf e -> forall b t xs keep, nonneg (bal b) -> 0 <= t_gas_used t <= t_gas t ->
+  let r := deliver_x true c e b t xs keep in
+  snd (fst r) = VmErr \/ snd (fst r) = MsgErr ->
+  let b' := fst (fst r) in
+  let net := bal b' (e_collector e) - bal b (e_collector e) in
+  bal b' (e_signer e) - bal b (e_signer e) = - net /\
+  0 <= net <= prepay (t_gas t) (eff_price (t_fee t) (e_base_fee e)) /\
+  (forall a, In a (e_universe e) -> a <> e_signer e -> a <> e_collector e -> bal b' a = bal b a) /\
+  supply b' = supply b.
+Proof. exact failed_x_changes_only_fee. Qed.
+Print Assumptions C05_x_failed_tx_changes_only_fee.
+
+(** At every program point reached by a script ([Jst]: the cache-context bank and the saved multistores are non-negative,
+    agree with the pre-tx bank outside the scenario and keep its gap between supply and balances) a frame that is
+    reverted — whatever it contains — leaves exactly the state of its start and has no net effect. *)
+Theorem C05_x_reverted_frame_invisible :
+  forall c U b1, NoDup U -> forall body s s1 net, Jst c U b1 s ->
+  xexec true c U (XFrame body false) s = Some (s1, net) ->
+  net = [] /\ s_wei s1 = s_wei s /\ s_cb s1 = s_cb s /\ s_snap s1 = s_snap s.
+Proof. exact reverted_frame_invisible. Qed.
+Print Assumptions C05_x_reverted_frame_invisible.
+
+(** A precompile call whose pre-run flush fails half-way has no effect at all: the written prefix and the mint at the
+    EVM module account are undone by the revert of the call (by construction of the model of the order "journal, then
+    flush"; what makes it matter is the theorem above — no later revert or commit can bring the prefix back). *)
+Theorem C05_x_failed_flush_invisible :
+  forall c U bsend s s1 net,
+  xpre true c U bsend s = Some (s1, net) -> snd (commit2 c U (s_wei s) (s_cb s)) = false ->
+  net = [] /\ s_wei s1 = s_wei s /\ s_cb s1 = s_cb s /\ s_snap s1 = s_snap s.
+Proof. exact failed_flush_invisible. Qed.
+Print Assumptions C05_x_failed_flush_invisible.
+
+(** OnRunStart flushing BEFORE it journals the PrecompileCalled entry ([deliver_x false]) REFUTES the property: a
+    reverted sub-call that paid a blocked module account and then called a precompile leaves the flush's mint at the
+    EVM module account and the final commit writes it — the supply grows, the checker refuses the measurement. *)
+Theorem C05_flush_before_journal_refuted :
+  exists c e b t xs keep, env_wf e /\ nonneg (bal b) /\ 0 <= t_gas_used t <= t_gas t /\
+    let r := deliver_x false c e b t xs keep in
+    snd r = [] /\ supply (fst (fst r)) > supply b /\
+    Pb (mk e b (set_evm t (EvmOk (snd r))) (snd (fst r)) (fst (fst r))) = false.
+Proof. exact flush_before_journal_refuted. Qed.
+Print Assumptions C05_flush_before_journal_refuted.
 
 (** The boolean checker evaluated on implementation measurements is sound for [P]. *)
 Theorem C05_checker_sound : forall m, Pb m = true -> P m.
